@@ -107,7 +107,9 @@ const CHANGES = {
   regex: { on: (s, h) => h === "regex", run: (rng, s, n) => { const items = Array.from({ length: 1 + rng.below(3) }, () => genTplItem(rng, 1)); n[1] = [A("tpl"), ...items]; n[2] = tplDescribe(items); return true; } },
   "array-as-rest": { on: (s, h) => h === "array", run: (rng, s, n) => { s.set([A("tuple"), [], n[1]]); return true; } },
   typeof: { on: (s, h) => h === "typeof", run: (rng, s, n) => { const t = rng.pick(["string", "number", "boolean"]); if (t === n[1]) return false; n[1] = t; return true; } },
-  formats: { on: (s, h) => h === "strfmt" || h === "numfmt", run: (rng, s, n, h) => { const pool = h === "strfmt" ? ["fa", "fb", "fab"] : ["n2", "n3"]; if (n.length > 2 && rng.chance(1, 2)) n.pop(); else n.push(rng.pick(pool)); return true; } },
+  // a string format and a number format of the same registered name(s) are different types
+  "format-kind": { on: (s, h, n) => (h === "strfmt" || h === "numfmt") && n.slice(1).every((f) => f === "f2"), run: (rng, s, n, h) => { s.set([A(h === "strfmt" ? "numfmt" : "strfmt"), ...n.slice(1)]); return true; } },
+  formats: { on: (s, h) => h === "strfmt" || h === "numfmt", run: (rng, s, n, h) => { const pool = h === "strfmt" ? ["fa", "fb", "fab", "f2"] : ["n2", "n3", "f2"]; if (n.length > 2 && rng.chance(1, 2)) n.pop(); else n.push(rng.pick(pool)); return true; } },
   typed: { on: (s, h) => h === "typed", run: (rng, s, n) => { const t = rng.pick(TYPED); if (t === n[1]) return false; n[1] = t; return true; } },
   wrap: { on: (s, h) => h !== "opt", run: (rng, s, n) => { s.set(rng.pick([[A("array"), n], [A("tuple"), [n], A("none")], [A("object"), [["a", n]], []], [A("anyof"), n, [A("nullish"), "null"]]])); return true; } },
 };
@@ -204,8 +206,21 @@ function genTwins(rng) {
   return [A("h256"), A("same"), [A("prop-order")], [], a, [], b, vals.map(encVal)];
 }
 
+// two types that differ ONLY in the kind of a custom format of the same registered name(s)
+function genFormatTwins(rng) {
+  const names = Array.from({ length: 1 + rng.below(2) }, () => "f2");
+  const wrap = rng.pick([(x) => x, (x) => [A("array"), x], (x) => [A("object"), [["p", x]], []], (x) => [A("tuple"), [x, genLeaf(rng)], A("none")], (x) => [A("anyof"), x, [A("nullish"), "null"]]]);
+  let a = wrap([A("strfmt"), ...names]), b = clone(a);
+  const swap = (x) => { if (!Array.isArray(x)) return; if (head(x) === "strfmt") { x[0] = A("numfmt"); return; } x.forEach(swap); };
+  swap(b);
+  if (rng.chance(1, 2)) [a, b] = [b, a];
+  const vals = ["2", "a2", "z", 2, 6, 3, null, ["2"], [6], { p: "2" }, { p: 6 }, ["2", null], [6, null]];
+  return [A("h256"), A("diff"), [A("format-kind")], [], a, [], b, vals.map(encVal)];
+}
+
 export function gen(rng, params, mode) {
   if (rng.chance(1, 15)) return genTwins(rng);
+  if (rng.chance(1, 25)) return genFormatTwins(rng);
   const mutual = rng.chance(1, 2);
   const { names, env } = mutual ? genMutualEnv(rng) : genEnv(rng);
   const rt = mutual && rng.chance(2, 3) ? [A("ref"), rng.pick(names)] : genRT(rng, 1 + rng.below(3), names);
